@@ -279,6 +279,12 @@ class TermEval:
                 v = self.ev(obj, env)
                 return Deref(v.name) if isinstance(v, Out) else v
             return app("optional." + name)
+        if k == "CXXOperatorCallExpr" and n.get("op") == "=" and obj is not None and "cls" in n:
+            lo = A.strip(obj)
+            if isinstance(lo, dict) and lo.get("k") == "DeclRefExpr" and lo.get("decl") in env and not isinstance(env[lo["decl"]], Out) \
+                    and not lo.get("global") and lo.get("dk") == "Var":
+                env[lo["decl"]] = self.ev(args[0], env) if args else None   # assignment to a local object
+                return env[lo["decl"]]
         o = self.ev(obj, env) if obj is not None else None
         if k == "CXXOperatorCallExpr" and "cls" not in n:
             o = None
